@@ -2838,13 +2838,33 @@ class WBEMConnection:  # pylint: disable=too-many-instance-attributes
                                                  namespace)
         return (rtn_objects, end_of_sequence, rtn_ctxt)
 
+    def _get_objects_from_tuples(self, result):
+        """
+        Return the list of objects from an operation result whose IRETURNVALUE
+        child elements are parsed into (name, attrs, object) tuples (i.e.
+        OBJECTPATH and the VALUE.OBJECT* elements).
+
+        Raises CIMXMLParseError if the result contains other elements.
+        """
+        if result is None:
+            return []
+        objects = []
+        for item in result[0][2]:
+            if not isinstance(item, tuple) or len(item) != 3:
+                raise CIMXMLParseError(
+                    _format("Unexpected element in result list, got {0} "
+                            "object", item.__class__.__name__),
+                    conn_id=self.conn_id)
+            objects.append(item[2])
+        return objects
+
     def _get_returned_objects(self, result, ObjectName):
         """
         Support for Associators, References operations
         Get returned objects and validate that the types correspond to the types
         for Associators and References
         """
-        objects = [] if result is None else [x[2] for x in result[0][2]]
+        objects = self._get_objects_from_tuples(result)
 
         if isinstance(ObjectName, CIMInstanceName):
             # instance-level invocation
@@ -2876,7 +2896,7 @@ class WBEMConnection:  # pylint: disable=too-many-instance-attributes
         CIMInstanceName if the request was CIMInstanceName or
         CIMClassName if the request was CIMClassName
         """
-        objects = [] if result is None else [x[2] for x in result[0][2]]
+        objects = self._get_objects_from_tuples(result)
 
         if isinstance(ObjectName, CIMInstanceName):
             # instance-level invocation
@@ -4664,10 +4684,7 @@ class WBEMConnection:  # pylint: disable=too-many-instance-attributes
                 QueryLanguage=QueryLanguage,
                 Query=Query)
 
-            if result is None:
-                instances = []
-            else:
-                instances = [x[2] for x in result[0][2]]
+            instances = self._get_objects_from_tuples(result)
 
             for instance in instances:
 
